@@ -378,8 +378,13 @@ Section Final.
     unfold to_graph, to_graph_with.
     apply (run_generic url cid ver show_url show_cid show_ver parse_url parse_cid parse_ver g Hwf).
     - intros x. unfold dg, graph_dis. apply dis_perm.
-      rewrite map_map. rewrite <- (map_nth_seq (g_nodes g) (dnode url cid ver)) at 2. rewrite map_map.
-      apply Permutation_map. apply Permutation_sym. exact Ps.
+      assert (E : map gn_name (g_nodes g)
+                  = map (fun i => pl_name (pk url cid ver show_url show_cid show_ver g i)) (seq 0 nn)).
+      { change (fun i => pl_name (pk url cid ver show_url show_cid show_ver g i))
+          with (fun i => gn_name (nd url cid ver g i)).
+        rewrite <- (map_map (nd url cid ver g) gn_name). f_equal. symmetry.
+        apply (map_nth_seq (g_nodes g) (dnode url cid ver)). }
+      rewrite E, map_map. apply Permutation_map. apply Permutation_sym. exact Ps.
     - exact Ps.
   Qed.
 End Final.
